@@ -23,7 +23,9 @@ from ..cfg import must_facts, holds, canon_fact
 from ..rules import event_facts, node_calls
 from ..mutate import mutate, remove_stmts, replace_expr, replace_stmt, parse_stmt, parse_expr
 from ..model import AnalysisError
-from ..x_sync import resolve_local, own_walk, own_find, node_counts, method_call_on, exit_states, reaches, handler_catches_cancel
+from fractions import Fraction
+from .. import x_tdeval as tdeval
+from ..x_sync import check_none_tests, resolve_local, own_walk, own_find, node_counts, method_call_on, exit_states, reaches, handler_catches_cancel
 
 TECHNIQUE = "who-may-call / wrapper lint on the scheduling entries, handler-structure (exception-escape) rule, guard dominance, exhaustive folding of the delay expression, exit-state typestate of run_sync"
 EXPLANATION = (
@@ -166,10 +168,35 @@ def check_thread_safe(ck):
             return False
         return any(pred(x) for r in _node_roots(nd) for x in q.walk_local(r))
 
-    tests = [nd for nd in cfg.stmt_nodes() if has(nd, lambda x: _is_same_loop_test(x, True))]
+    # helpers of the same class that *are* the identity test (`return asyncio.get_running_loop() is self.asyncio_loop`,
+    # optionally `except RuntimeError: return False`) are inlined
+    helper_same = set()
+    for c in [x for x in own_walk(fi.node) if isinstance(x, ast.Call) and isinstance(x.func, ast.Attribute) and q.dotted(x.func.value) == "self" and not x.args and not x.keywords]:
+        if ck.repo.has_func(PA, "BaseAsyncIOLoop." + c.func.attr):
+            hf = ck.repo.func(PA, "BaseAsyncIOLoop." + c.func.attr)
+            rets = [r for r in own_walk(hf.node) if isinstance(r, ast.Return)]
+            hpm = q.parent_map(hf.node)
+            if rets and all(r.value is not None and (_is_same_loop_test(r.value) or q.is_const(r.value, False)) for r in rets) and any(_is_same_loop_test(r.value) for r in rets) \
+                    and all(q.protected_by(hpm, g, "RuntimeError") is not None for g in own_walk(hf.node) if q.is_call(g, "asyncio.get_running_loop")):
+                helper_same.add(c.func.attr)
+                ck.use(hf)
+
+    def is_same(e, negated_too=False):
+        return _is_same_loop_test(e, negated_too) or (isinstance(e, ast.Call) and isinstance(e.func, ast.Attribute) and q.dotted(e.func.value) == "self" and e.func.attr in helper_same and not e.args)
+
+    tests = [nd for nd in cfg.stmt_nodes() if has(nd, lambda x: is_same(x, True))]
     if not tests:
-        raise AnalysisError("%s: cannot find the test `asyncio.get_running_loop() is self.asyncio_loop` (loop-identity idiom unknown)" % fi.site())
-    ck.floor("C38.thread-safe", len(tests), 1, "loop identity tests")
+        # is the guard absent, or present in a shape that is not understood?  Anything that could be a
+        # thread/loop identity test in disguise makes the analysis fail closed; otherwise plain call_soon is simply unguarded.
+        def opaque(x):
+            if isinstance(x, ast.Compare) and any(w in q.unparse(x) for w in ("get_running_loop", "get_ident", "_thread_ident", "current_thread", "_get_running_loop", "get_event_loop")):
+                return True
+            if isinstance(x, ast.Call) and isinstance(x.func, ast.Attribute) and q.dotted(x.func.value) == "self" and x.func.attr not in ("_run_callback",) and any(w in x.func.attr for w in ("thread", "loop", "running", "current")):
+                return True
+            return False
+        if any(opaque(x) for x in own_walk(fi.node)):
+            raise AnalysisError("%s: no test `asyncio.get_running_loop() is self.asyncio_loop`, but another loop/thread identity test that is not modelled" % fi.site())
+        ck.note("add_callback contains no loop-identity test at all: every use of plain call_soon is unguarded")
     aliases = {}
     for st in own_walk(fi.node):
         if isinstance(st, ast.Assign) and len(st.targets) == 1 and isinstance(st.targets[0], ast.Name):
@@ -227,7 +254,7 @@ def check_thread_safe(ck):
             e, pol = nd.ast, kind == "true"
             t, cpol = canon_fact(e, pol)
             core = ast.parse(t, mode="eval").body
-            if _is_same_loop_test(core):
+            if is_same(core):
                 same = cpol
             elif isinstance(core, ast.Name) and core.id in bool_alias:
                 if alias is False and cpol:
@@ -239,7 +266,7 @@ def check_thread_safe(ck):
         return (same, alias, chosen, bad, cnt)
 
     normal, _ = exit_states(cfg, (None, None, None, False, 0), tr, edge_transfer=edge, follow_exc=True, exc_effect=False)
-    ck.floor("C38.thread-safe", len(normal), 2, "normal exit states of add_callback")
+    ck.floor("C38.thread-safe", len(normal), 1, "normal exit states of add_callback")
     seen_ts = False
     for _f, (same, alias, chosen, bad, cnt) in normal:
         ck.ob("C38.thread-safe", fi, fi.node, not bad, "plain call_soon is used only on paths where the running loop is known to be this loop; other loop / no loop / unknown -> call_soon_threadsafe (wakes the selector)",
@@ -347,44 +374,64 @@ def check_call_at(ck):
         ck.ob("C38.call-at", rt, rt.node, k >= 1, "remove_timeout cancels the handle on every path (count=%d)" % k, construct="exit cancels=%d" % k)
 
 
+def _eval_when(ck, fi, param, value, now):
+    """Abstractly run ``fi`` (add_timeout / call_later) with ``param`` = value; returns ('call_at', when) | ('raise', name)."""
+    env = {p_: None for p_ in fi.params()}
+    env[param] = value
+    calls = {"self.time()": now, "self.call_at": lambda args: ("call_at", args[0] if args else None)}
+    try:
+        tdeval.run(fi.node.body, env, calls)
+    except tdeval.Returned as r:
+        return r.value if isinstance(r.value, tuple) else ("other", r.value)
+    except tdeval.Raised as e:
+        return ("raise", e.name)
+    except tdeval.Unsupported as e:
+        raise AnalysisError("%s: construct not modelled by the evaluator: %s" % (fi.site(), e))
+    return ("fallthrough", None)
+
+
 def check_deadlines(ck):
     at = ck.func(IO, "IOLoop.add_timeout")
     dl = [x for x in at.params() if x != "self"][0]
-    facts = must_facts(at.cfg)
-    kinds = set()
+    # forwarding of the callback and its arguments (syntactic), arithmetic by abstract evaluation
+    n = 0
     for nd in at.cfg.stmt_nodes(lambda nd: nd.kind == "stmt" and isinstance(nd.ast, ast.Return)):
-        v = nd.ast.value
+        v = resolve_local(at, nd.ast.value)
         if not (method_call_on(v, "self", "call_at") and len(v.args) >= 2):
             raise AnalysisError("%s: add_timeout returns something other than self.call_at(...)" % at.site(nd.ast))
-        fw = q.dotted(v.args[1]) == "callback" and _forwards_varargs(v, at)
-        a0 = v.args[0]
-        f = facts[nd.id]
-        is_real = any(pol and t.startswith("isinstance(%s, " % dl) and "Real" in t for t, pol in f)
-        is_td = any(pol and t.startswith("isinstance(%s, " % dl) and "timedelta" in t for t, pol in f)
-        if q.dotted(a0) == dl:
-            kinds.add("absolute")
-            ck.ob("C38.deadline", at, nd.ast, is_real and fw, "a numeric deadline is an absolute time on the loop's clock, passed through unchanged")
-        elif isinstance(a0, ast.BinOp) and isinstance(a0.op, ast.Add):
-            parts = [a0.left, a0.right]
-            now = [p for p in parts if method_call_on(p, "self", "time") and not p.args]
-            tot = [p for p in parts if method_call_on(p, dl, "total_seconds") and not p.args]
-            kinds.add("timedelta")
-            ck.ob("C38.deadline", at, nd.ast, is_td and fw and len(now) == 1 and len(tot) == 1, "a timedelta deadline is now + its total_seconds() (whole duration, days included)")
-        else:
-            ck.ob("C38.deadline", at, nd.ast, False, "deadline form not recognised as absolute or now + timedelta.total_seconds()")
-    ck.ob("C38.deadline", at, at.node, kinds == {"absolute", "timedelta"}, "add_timeout supports absolute and timedelta deadlines", construct="deadline forms %s" % sorted(kinds))
-    raises = [r for r in own_walk(at.node) if isinstance(r, ast.Raise)]
-    ck.ob("C38.deadline", at, at.node, any(q.dotted(r.exc.func if isinstance(r.exc, ast.Call) else r.exc) == "TypeError" for r in raises), "any other deadline type is rejected with TypeError", construct="rejects other types")
+        n += 1
+        ck.ob("C38.deadline", at, nd.ast, q.dotted(v.args[1]) == "callback" and _forwards_varargs(v, at), "the callback and its *args/**kwargs are forwarded to call_at")
+    ck.floor("C38.deadline", n, 2, "call_at returns in add_timeout")
+    F = Fraction
+    bad = []
+    k = 0
+    for now in (F(0), F(1000), F(1700000000) + F(1, 4)):
+        for d in (F(0), F(5), F(3, 2), F(1700000100)):
+            k += 1
+            r = _eval_when(ck, at, dl, d, now)
+            if r != ("call_at", d):
+                bad.append("number %s at now=%s -> %s" % (d, now, r))
+        for x in (F(1, 1000), F(1, 2), F(90), F(86399), F(86400), F(86400 * 2 + 5), F(7 * 86400) + F(1, 4)):
+            k += 1
+            r = _eval_when(ck, at, dl, tdeval.TD(x), now)
+            if r != ("call_at", now + x):
+                bad.append("timedelta %ss at now=%s -> %s (expected %s)" % (x, now, r, now + x))
+    ck.ob("C38.deadline", at, at.node, not bad, "add_timeout: a numeric deadline is passed on unchanged, a timedelta becomes now + its whole duration incl. days (%d samples%s)" % (k, ("; wrong: " + "; ".join(bad[:3])) if bad else ""),
+          construct="add_timeout deadline mismatches=%d" % len(bad))
+    rej = [r for r in (_eval_when(ck, at, dl, None, F(0)), _eval_when(ck, at, dl, "soon", F(0))) if r != ("raise", "TypeError")]
+    ck.ob("C38.deadline", at, at.node, not rej, "any other deadline type is rejected with TypeError", construct="rejects other types=%s" % (not rej))
     cl = ck.func(IO, "IOLoop.call_later")
     dp = [x for x in cl.params() if x != "self"][0]
+    bad = []
+    for now in (F(0), F(1000)):
+        for d in (F(0), F(1, 2), F(30)):
+            r = _eval_when(ck, cl, dp, d, now)
+            if r != ("call_at", now + d):
+                bad.append("delay %s at now=%s -> %s" % (d, now, r))
+    ck.ob("C38.deadline", cl, cl.node, not bad, "call_later(delay) schedules at now + delay%s" % (("; wrong: " + "; ".join(bad[:2])) if bad else ""), construct="call_later mismatches=%d" % len(bad))
     rets = [r for r in own_walk(cl.node) if isinstance(r, ast.Return)]
-    ok = False
-    if len(rets) == 1 and method_call_on(rets[0].value, "self", "call_at") and len(rets[0].value.args) >= 2:
-        a0 = rets[0].value.args[0]
-        if isinstance(a0, ast.BinOp) and isinstance(a0.op, ast.Add):
-            parts = [a0.left, a0.right]
-            ok = any(method_call_on(p, "self", "time") for p in parts) and any(q.dotted(p) == dp for p in parts) and q.dotted(rets[0].value.args[1]) == "callback" and _forwards_varargs(rets[0].value, cl)
-    ck.ob("C38.deadline", cl, cl.node, ok, "call_later(delay) is call_at(now + delay, callback, *args, **kwargs)", construct="call_later arithmetic")
+    v = resolve_local(cl, rets[0].value) if len(rets) == 1 else None
+    ck.ob("C38.deadline", cl, cl.node, v is not None and method_call_on(v, "self", "call_at") and len(v.args) >= 2 and q.dotted(v.args[1]) == "callback" and _forwards_varargs(v, cl), "call_later forwards the callback and its arguments", construct="call_later forwarding")
     # the concrete loop overrides call_at (the base call_at/add_timeout pair would recurse)
     ck.ob("C38.deadline", None, ck.repo.cls(PA, "BaseAsyncIOLoop"), ck.repo.has_func(PA, "BaseAsyncIOLoop.call_at") and not ck.repo.has_func(PA, "BaseAsyncIOLoop.add_timeout"),
           "BaseAsyncIOLoop implements call_at and inherits add_timeout/call_later", construct="BaseAsyncIOLoop overrides", file=PA)
@@ -470,6 +517,26 @@ def check_run_sync(ck):
         ck.ob("C38.run-sync", rn, c, ok, "the done-callback stops the loop")
 
 
+def _callback_results(fi, callee_names):
+    return {st.targets[0].id: "return value of a user callback (None or an awaitable, which may be falsy)" for st in own_walk(fi.node)
+            if isinstance(st, ast.Assign) and len(st.targets) == 1 and isinstance(st.targets[0], ast.Name) and isinstance(st.value, ast.Call) and q.dotted(st.value.func) in callee_names}
+
+
+def check_none(ck):
+    rc = ck.func(IO, "IOLoop._run_callback")
+    cbp = [x for x in rc.params() if x != "self"][0]
+    ex = _callback_results(rc, {cbp})
+    n = check_none_tests(ck, "C38.none-test", rc, extra=ex, only=list(ex))
+    rs = ck.func(IO, "IOLoop.run_sync")
+    tp = [x for x in rs.params() if x != "self"][1]
+    n += check_none_tests(ck, "C38.none-test", rs, only=[tp])
+    for nf in ck.repo.nested(rs):
+        if isinstance(nf.node, q.FuncNode) and nf.parent is rs:
+            ex = _callback_results(nf, {[x for x in rs.params() if x != "self"][0]})
+            n += check_none_tests(ck, "C38.none-test", ck.use(nf), extra=ex, only=list(ex) + [tp])
+    ck.floor("C38.none-test", n, 4, "None tests on timeouts / callback results")
+
+
 def run(ck):
     ck.rule("C38.wrapped", "add_callback / call_at / add_callback_from_signal hand asyncio self._run_callback + functools.partial(callback, *args, **kwargs); spawn_callback delegates to add_callback")
     ck.rule("C38.run-callback", "_run_callback runs the callback under non-re-raising handlers for CancelledError and Exception (logged with traceback) and watches a returned awaitable through add_future(ret, _discard_future_result)")
@@ -477,6 +544,7 @@ def run(ck):
     ck.rule("C38.add-future", "add_future reaches the callback only from deferred lambdas: asyncio futures via add_done_callback -> _run_callback(partial(callback, f)); other futures via add_callback; exactly one registration")
     ck.rule("C38.call-at", "call_at passes asyncio the delay max(0, when - now) (all small values), returns the handle; remove_timeout cancels it")
     ck.rule("C38.deadline", "add_timeout: numeric deadline unchanged, timedelta -> now + total_seconds(), other types TypeError; call_later -> now + delay")
+    ck.rule("C38.none-test", "optional values with legal falsy values (run_sync's timeout = 0, a callback's falsy return value) are compared with None by identity, never by truthiness")
     ck.rule("C38.run-sync", "run_sync: schedule, arm timeout (now + timeout) iff given, start, remove timeout; timeout callback marks then cancels (or stops); result read only when done and not cancelled; TimeoutError iff the timeout ran else RuntimeError; function errors captured in the future")
 
     check_wrapped(ck)
@@ -486,6 +554,7 @@ def run(ck):
     check_call_at(ck)
     check_deadlines(ck)
     check_run_sync(ck)
+    check_none(ck)
 
 
 # ---------------------------------------------------------------------------
@@ -545,10 +614,13 @@ def _drop_cancel_handler(root):
 
 
 MUTANTS = [
+    ("run_sync(timeout=0) treated as no timeout (`if timeout:`)", _in(IO, "IOLoop.run_sync", replace_expr(lambda n: isinstance(n, ast.Compare) and isinstance(n.ops[0], ast.IsNot) and ast.unparse(n.left) == "timeout", lambda n: n.left, limit=2)), "C38.none-test"),
+    ("_run_callback ignores a falsy awaitable (`if ret:`)", _in(IO, "IOLoop._run_callback", replace_expr(lambda n: isinstance(n, ast.Compare) and isinstance(n.ops[0], ast.IsNot), lambda n: n.left)), "C38.none-test"),
     ("add_future may call back synchronously for a finished asyncio future", _in(IO, "IOLoop.add_future", _sync_add_future), "C38.add-future"),
     ("add_future calls the callback directly when the future is already done", _in(IO, "IOLoop.add_future", replace_stmt(lambda st: isinstance(st, ast.Expr) and "add_done_callback" in ast.unparse(st) and "_run_callback" in ast.unparse(st), lambda st: [ast.If(test=parse_expr("future.done()"), body=[parse_stmt("callback(future)")], orelse=[st])])), "C38.add-future"),
     ("add_callback always uses call_soon (no wake-up from other threads)", _in(PA, "BaseAsyncIOLoop.add_callback", _always_call_soon), "C38.thread-safe"),
     ("add_callback picks the schedulers the wrong way round (inverted identity test)", _in(PA, "BaseAsyncIOLoop.add_callback", replace_expr(lambda n: isinstance(n, ast.Compare) and isinstance(n.ops[0], ast.Is) and "get_running_loop" in ast.unparse(n), lambda n: ast.Compare(left=n.left, ops=[ast.IsNot()], comparators=n.comparators))), "C38.thread-safe"),
+    ("add_callback uses call_soon whenever the calling thread has ANY running loop (seeded C38-adv1)", _in(PA, "BaseAsyncIOLoop.add_callback", lambda root: _any_loop(root)), "C38.thread-safe"),
     ("add_callback uses plain call_soon when no loop runs in the calling thread", _in(PA, "BaseAsyncIOLoop.add_callback", lambda root: _handler_plain(root)), "C38.thread-safe"),
     ("call_at schedules the bare callback (no _run_callback)", _in(PA, "BaseAsyncIOLoop.call_at", _unwrap_run_callback), "C38.wrapped"),
     ("add_callback schedules the bare callback (no _run_callback)", _in(PA, "BaseAsyncIOLoop.add_callback", _unwrap_run_callback), ("C38.wrapped", "C38.thread-safe")),
@@ -581,4 +653,13 @@ def _handler_plain(root):
                 if isinstance(a, ast.Attribute) and a.attr == "call_soon_threadsafe":
                     a.attr = "call_soon"
                     return True
+    return False
+
+
+def _any_loop(root):
+    for t in ast.walk(root):
+        if isinstance(t, ast.Try) and "get_running_loop" in ast.unparse(t.body[0]) and isinstance(t.body[0], ast.If):
+            t.body = [ast.Expr(value=parse_expr("asyncio.get_running_loop()"))]
+            t.orelse = [parse_stmt("call_soon = self.asyncio_loop.call_soon")]
+            return True
     return False
